@@ -351,16 +351,22 @@ fn typed_value(a: &mut Asm, r: &mut Rng) {
 /// Pushes `keccak(key ‖ slot)` for a mapping at the slot on top of the stack.
 /// Stack: [.., slot] -> [.., hash]. `key` is produced by `typed_value`.
 fn mapping_hash(a: &mut Asm, r: &mut Rng) {
+    mapping_hash_field(a, r, false);
+}
+
+/// As `mapping_hash`; with `force_field` the access always goes to a field
+/// (a small constant added to the hash).
+fn mapping_hash_field(a: &mut Asm, r: &mut Rng, force_field: bool) {
     // mstore(0x20, slot)
     a.push_u(0x20).op(op::MSTORE);
     // mstore(0, key)
     typed_value(a, r);
     a.op(op::PUSH0).op(op::MSTORE);
     a.push_u(0x40).op(op::PUSH0).op(op::SHA3);
-    if r.chance(1, 4) {
+    if force_field || r.chance(1, 4) {
         // a field of a struct-valued mapping: keccak(key ‖ slot) + n; the
         // constant is attacker-chosen, so now and then an absurd one
-        if r.chance(1, 6) {
+        if !force_field && r.chance(1, 6) {
             a.push(boundary_constant(r)).op(op::ADD);
         } else {
             a.push_u(1 + r.below(3) as u128).op(op::ADD);
@@ -481,7 +487,42 @@ fn typed_use(a: &mut Asm, r: &mut Rng, scratch_slot: U256) {
 /// One storage fragment on slot `s`; stack-neutral.
 fn storage_fragment(a: &mut Asm, r: &mut Rng, s: U256, slots: &[U256]) {
     let other = *r.pick(slots);
-    match r.below(14) {
+    match r.below(17) {
+        16 => {
+            // the value of one slot stored into a field of a struct-valued
+            // mapping at another slot, while the first slot is also read as a
+            // field at a non-zero bit offset: the first slot's type is then
+            // reached both on its own and nested inside the second's
+            a.push(other).op(op::SLOAD);
+            a.push(s);
+            mapping_hash_field(a, r, true);
+            a.op(op::SSTORE);
+            let k = *r.pick(&[64u32, 128, 160, 192]);
+            let w = *r.pick(&[8u32, 32, 64]);
+            a.push(other).op(op::SLOAD).push_u(u128::from(k)).op(op::SHR).push(mask(w)).op(op::AND);
+            if r.chance(1, 2) {
+                a.op(op::POP);
+            } else {
+                a.push(*r.pick(slots)).op(op::SSTORE);
+            }
+        }
+        14 => {
+            // one loaded value used both in an unsigned bounds check against a
+            // constant and in a signed comparison, each result kept
+            a.push(s).op(op::SLOAD);
+            a.dup(1).push_u(1 + r.below(100) as u128).op(if r.chance(1, 2) { op::LT } else { op::GT });
+            a.push(other).op(op::SSTORE);
+            a.push_u(r.below(9) as u128).op(if r.chance(1, 2) { op::SLT } else { op::SGT });
+            a.push(*r.pick(slots)).op(op::SSTORE);
+        }
+        15 => {
+            // a slot used directly and as the base of an array whose data
+            // slot is the literal keccak(slot)
+            typed_value(a, r);
+            a.push(s).op(op::SSTORE);
+            a.push(keccak_word(s)).push_u(r.below(3) as u128).op(op::ADD).op(op::SLOAD);
+            typed_use(a, r, other);
+        }
         0 | 1 => {
             // direct write
             typed_value(a, r);
@@ -595,6 +636,7 @@ pub fn gen_storage(r: &mut Rng) -> Vec<u8> {
             19 => U256::from(r.below(40)),
             // beyond the first 10 000 slots whose hashes the library knows
             20 => U256::from(10_000 + r.below(1 << 20)),
+            21 if r.chance(1, 2) => U256::from(10_000 + r.below(50)),
             // EIP-1967 implementation / admin slots, and other large keys
             21 => U256::from_str_hex("0x360894a13ba1a3210667c828492db98dca3e2076cc3735a920a3ca505d382bbc").unwrap(),
             22 => U256::from_str_hex("0xb53127684a568b3173ae13b9f8a6016e243e63b6e8ee1178d6a717850b5d6103").unwrap(),
